@@ -8,6 +8,8 @@ from .run import Check, Section
 
 NAMES = ["S", "S_B", "A_B", "x_1", "S_1", "T", "HG001", "HG001_B", "T+N", "K(2)", "NA07.1", "NA07_1", "a|b", "x*"]  # prefix-related names and names holding regular-expression metacharacters
 POPS = ["YRI", "CEU", "AMR"]
+POPS_SUFFIXED = ["pop_1", "pop_2", "AFR_1"]  # labels that look like the end of a strand header (msprime-style population names)
+PALETTE = {"YRI": "red", "CEU": "blue", "AMR": "green", "pop_1": "orange", "pop_2": "purple", "AFR_1": "cyan"}
 _dir = None
 
 
@@ -41,6 +43,7 @@ def gen(rng, tier):
                 rng.shuffle(o)
             chroms = o
         lines = []
+        pops = POPS_SUFFIXED if i % 5 == 2 else POPS
         last_cm = {}  # chromosome -> the cM ends of the last block of every strand
         for s in samples:
             twin = rng.random() < 0.12  # an unadmixed founder: both strands identical, block for block
@@ -53,7 +56,7 @@ def gen(rng, tier):
                     cms = sorted(rng.sample(range(1, 500), nb))
                     for cm in cms:
                         # cM with at most 1 decimal: exactly representable after *1e4 rounding
-                        body.append({"t": [rng.choice(POPS), chrom_tok(c, rng.random() < 0.3), str(cm * 7), f"{cm/10:.1f}"], "cm": cm * 1000})
+                        body.append({"t": [rng.choice(pops), chrom_tok(c, rng.random() < 0.3), str(cm * 7), f"{cm/10:.1f}"], "cm": cm * 1000})
                 if twin and prev is not None:
                     body = [dict(b, t=list(b["t"])) for b in prev]
                 prev = body
@@ -193,7 +196,7 @@ def gen_plot(rng, tier):
             body = [i for i, l in enumerate(c["lines"]) if len(l["t"]) > 1]
             for i in sorted(rng.sample(body, min(len(body), rng.randint(1, 3))), reverse=True):
                 l = c["lines"][i]
-                pop = rng.choice([p for p in POPS if p != l["t"][0]])
+                pop = rng.choice([p for p in (POPS_SUFFIXED if l["t"][0] in POPS_SUFFIXED else POPS) if p != l["t"][0]])
                 cm = l["cm"] + 50
                 c["lines"].insert(i + 1, {"t": [pop, l["t"][1], str(int(l["t"][2]) + 1), f"{cm/10000:.4f}"], "cm": cm})
             for e in c["ends"] or []:
@@ -241,7 +244,7 @@ def impl_plot(case):
     import matplotlib.colors as mc
     from matplotlib.figure import Figure
 
-    COLORS = {"YRI": "red", "CEU": "blue", "AMR": "green"}
+    COLORS = dict(PALETTE)
     figs = []
     orig_save = Figure.savefig
 
@@ -252,12 +255,45 @@ def impl_plot(case):
     Figure.savefig = save
     bands = None
     try:
+        others = sorted({l["t"][0].rsplit("_", 1)[0] for l in case["lines"] if len(l["t"]) == 1} - {case["name"]})
+        if others and C.plumb(case, "prior-plot", 2) == 0:
+            # the figure of another sample of the same file was drawn just before, in the same process, and is still open
+            try:
+                with contextlib.redirect_stderr(io.StringIO()):
+                    K.PlotKaryogram(bp, others[0], str(_dir / "prior.png"), centromeres_file=cen, title=None, colors=COLORS, log=getLogger("k", "CRITICAL"))
+            except (SystemExit, Exception):  # noqa: that call's outcome is another case's business
+                pass
+            added.clear()
+            figs.clear()
         try:
             with contextlib.redirect_stderr(io.StringIO()):
                 K.PlotKaryogram(bp, case["name"], str(_dir / "out.png"), centromeres_file=cen, title=None, colors=COLORS, log=getLogger("k", "CRITICAL"))
             status = "ok"
         except SystemExit as e:
             status = f"exit:{e.code}"
+        figure = None
+        if status == "ok" and figs:
+            # the finished figure itself: every rectangle in one of the ancestry colours with its extent in both directions, and
+            # the labelled ticks of the chromosome axis
+            with C.glue("reading the finished figure"):
+                fr, ticks = [], []
+                for ax in figs[-1].axes:
+                    shapes = []
+                    for col in ax.collections:
+                        fcs = col.get_facecolor()
+                        for i, path in enumerate(col.get_paths()):
+                            if len(fcs):
+                                shapes.append((path, fcs[i if len(fcs) > 1 else 0]))
+                    shapes += [(pt.get_path(), pt.get_facecolor()) for pt in ax.patches]
+                    for path, face in shapes:
+                        fc = tuple(round(float(x), 6) for x in face)
+                        pops = [p for p, cname in COLORS.items() if tuple(round(float(x), 6) for x in mc.to_rgba(cname)) == fc]
+                        if len(pops) != 1 or len(path.vertices) < 4:
+                            continue
+                        xs, ys = [v[0] for v in path.vertices[:4]], [v[1] for v in path.vertices[:4]]
+                        fr.append([pops[0], round(min(xs) * 10000), round(max(xs) * 10000), round(float(min(ys)), 4), round(float(max(ys)), 4)])
+                    ticks += [[round(float(pos), 4), lab.get_text()] for pos, lab in zip(ax.get_yticks(), ax.get_yticklabels())]
+                figure = {"rects": sorted(fr), "yticks": ticks}
         if os.environ.get("VERIF_TAPES") == "calls":  # experiment: exercise the fallback on the unchanged tree
             added.clear()
         if status == "ok" and not added and figs:
@@ -291,6 +327,8 @@ def impl_plot(case):
     out = {"status": status, "drawn": added}
     if bands is not None:
         out["bands"] = bands
+    if figure is not None:
+        out["figure"] = figure
     return out
 
 
@@ -305,6 +343,10 @@ def oracle_plot(case, obs):
     if obs["status"] != "ok":
         return f"PlotKaryogram exited with {obs['status']} for a sample that is present"
     exp = GetBlocksOracle(case)
+    if "figure" in obs:
+        why = _figure_oracle(case, obs["figure"], exp)
+        if why:
+            return why
     if "bands" in obs:
         # read off the finished figure: which band is which (chromosome, strand) is not observable there, so the bands are
         # compared with the sample's (chromosome, strand) sequences as a multiset
@@ -319,6 +361,43 @@ def oracle_plot(case, obs):
     got = [[b[:4] for b in obs["drawn"] if b[4] == h] for h in (0, 1)]
     if got != exp:
         return f"rectangles drawn {got} differ from the sample's blocks {exp}"
+    return None
+
+
+def _figure_oracle(case, fig, exp):
+    """the saved figure holds the named sample's rectangles and no others, each on the row whose tick is labelled with its chromosome"""
+    want = sorted([pop, x0, x1] for strand in exp for pop, c, x0, x1 in strand)
+    got = sorted(r[:3] for r in fig["rects"])
+    if got != want:
+        extra = [r for r in got if r not in want]
+        return f"the saved figure holds the coloured rectangles {got}; the sample's blocks are {want}" + (f" (not the sample's: {extra[:4]})" if extra else "")
+
+    def label_is(text, c):
+        t = text.strip()
+        t = t[3:] if t.lower().startswith("chr") else t
+        return t == str(c) or (c == 23 and t.upper() == "X")
+
+    if not fig["yticks"]:
+        return None
+    # rows: group by vertical extent; a row lies around exactly one labelled tick, and everything in it belongs to that chromosome
+    rows = {}
+    for pop, x0, x1, y0, y1 in fig["rects"]:
+        rows.setdefault((y0, y1), []).append([pop, x0, x1])
+    seqs = {}
+    for h, strand in enumerate(exp):
+        for pop, c, x0, x1 in strand:
+            seqs.setdefault((c, h), []).append([pop, x0, x1])
+    free = {k: sorted(v) for k, v in seqs.items()}
+    for (y0, y1), rr in sorted(rows.items()):
+        mid = (y0 + y1) / 2
+        pos, text = min(fig["yticks"], key=lambda t: abs(t[0] - mid))
+        if abs(pos - mid) > 0.5:
+            return f"a row of rectangles at y={y0}..{y1} lies at no labelled tick of the chromosome axis ({fig['yticks']})"
+        cands = [k for k, v in free.items() if v == sorted(rr)]
+        ok = [k for k in cands if label_is(text, k[0])]
+        if not ok:
+            return f"the rectangles {sorted(rr)} are drawn on the row labelled {text!r}; they are the blocks of chromosome {sorted({k[0] for k in cands}) or '?'}"
+        del free[ok[0]]
     return None
 
 
